@@ -26,10 +26,10 @@ m = {
     "version": 1,
     "setup_cmd": "python3 tools/vpcheck.py --setup",
     "hooks": {
-        "guard": "cargo feature verif-hooks (none needed so far: every stage is observed through pasfmt-core's public builder API)",
-        "enable": "cargo build --features verif-hooks (no hook commits exist yet; the harness builds /repo unmodified)",
+        "guard": "cargo feature verif-hooks of pasfmt-core (off by default; every hook item is #[cfg(feature = \"verif-hooks\")])",
+        "enable": "the harness crate depends on pasfmt-core with features = [\"verif-hooks\"] (harness/Cargo.toml.in); by hand: cargo build -p pasfmt-core --features verif-hooks",
         "baseline_off_cmd": "cd /repo && cargo test --workspace --no-fail-fast --offline",
-        "source_commits": [],
+        "source_commits": ["71ebd92", "c8d375b", "faf1412"],
         "add_only": True,
     },
     "engines": [{"name": "coq-model+correspondence", "path": "/verif/coq, /verif/harness, /verif/driver, /verif/tools",
